@@ -28,14 +28,17 @@ def spaces(tier):
     th = tier == "thorough"
     sp = []
     # slanted multi-point baselines: every step vector of the range (chord lengths with all fractional parts)
-    sp.append(("slant-main", K.bounds("slant", DXs=[1] + list(range(8, 46 if th else 31)), DYs=list(range(-14 if th else -10, 15 if th else 11)),
+    sp.append(("slant-main", K.bounds("slant", DXs=[1] + list(range(8, 46 if th else 27)), DYs=list(range(-14 if th else -8, 15 if th else 9)),
                                       Curvs=[-1, 0, 1] if th else [0, 1], Hs=[16, 40] if th else [16])))
     # degenerate shapes: vertical, single pixel, short, zero heights, steep
     sp.append(("slant-degenerate", K.bounds("slant", Ns=[1, 2, 4], DXs=[0, 1, 3, 5, 12], DYs=[-30, -3, 0, 2, 30], Ascs=[0, 12],
                                             Descs=[0, 5], Hs=[16, 32])))
+    # the same engine behind the pipeline's LineCropper.process_page (degenerate and ordinary lines)
+    sp.append(("linecropper", K.bounds("slant", Ns=[1, 2, 4], DXs=[0, 1, 5, 12, 20], DYs=[-30, 0, 3], Ascs=[0, 12], Descs=[0, 5],
+                                       Hs=[16, 48], via="linecropper")))
     # partly outside the page, other heights / scales
     sp.append(("slant-outside", K.bounds("slant", Ns=[2, 4, 5] if th else [2, 4], X0s=[-15, 20], Y0s=[3, 60], DXs=[1, 9, 14, 22, 37] if th else [1, 9, 14, 22],
-                                         DYs=[-4, 0, 5], Curvs=[0, 1], Ascs=[12, 20], Descs=[5, 8], Hs=[16, 32, 48, 64] if th else [16, 48],
+                                         DYs=[-4, 0, 5] if th else [-4, 5], Curvs=[0, 1] if th else [1], Ascs=[12, 20], Descs=[5, 8], Hs=[16, 32, 48, 64] if th else [16, 48],
                                          Scales=[8, 10, 15])))
     # same pixels: base / shifted together / cut inside the zero margin so that the band leaves the page
     sp.append(("slant-pairs", K.bounds("slant", Ns=[3, 4, 5], X0s=[12], Y0s=[40, 60] if th else [50], DXs=[1, 12, 16, 23], DYs=[-5, 0, 4],
@@ -94,7 +97,9 @@ def signature(tr, prog):
     if tr["outcome"] != "ok":
         return "exception", "crop() raised %s" % tr["outcome"]
     if prog == 0 and tr["ev"]["inp"] == "raise":
-        cls = "cubic-frac>=0.9" if (poly == 0 and n >= 4 and K.frac_high(tr["pts"])) else "other"
+        cls = "other"
+        if poly == 0 and n >= 4:
+            cls = "cubic-frac>=0.9" if K.frac_high(tr["pts"]) else "cubic-integer-length" if K.integer_length(tr["pts"]) else "other"
         return ("blank-nondegenerate:poly%d:%s" % (poly, cls),
                 "get_crop_inputs raised on a non-degenerate line, crop() returned the blank fallback")
     if prog == 0:
